@@ -206,6 +206,9 @@ fn gen(s: &mut Src, exh: u32, mode: Mode) -> Case {
     Case { w_ms: w_s * scale as u64 * 1000 + frac, base, cond_le, shared_ids, left, right, wm, via, scale }
 }
 
+/// Event ids are unique within a stream, as `StreamEvent::id` documents ("Unique event identifier"; the constructors
+/// draw a UUID). With two same-side events that share id AND timestamp the node's matched-flags (keyed by id and
+/// timestamp) alias, and the unchanged code already emits a pair twice after a partial eviction -- outside the domain.
 fn id_of(case: &Case, left: bool, i: usize) -> String {
     if case.shared_ids {
         format!("e{}", i)
@@ -426,7 +429,7 @@ fn decode(case: &Case, j: &JoinedEvent) -> Result<Decoded, Verdict> {
         let n = if left { case.left.len() } else { case.right.len() };
         (0..n).find(|&i| {
             let m = if left { &case.left[i] } else { &case.right[i] };
-            id_of(case, left, i) == e.id && e.metadata.timestamp == m.ts && e.metadata.source == if left { "L" } else { "R" }
+            id_of(case, left, i) == e.id && e.metadata.timestamp == m.ts && e.metadata.sequence == i as u64 && e.metadata.source == if left { "L" } else { "R" }
         })
     };
     match (find(l, true), find(r, false)) {
